@@ -221,7 +221,9 @@ func (w *world) promCounter(name string, labels map[string]string) float64 {
 type c19mWorld struct {
 	w        *world
 	ev, n    int
+	n2       int
 	log      string
+	log2     string
 	prom     float64
 	promName string
 }
@@ -229,14 +231,15 @@ type c19mWorld struct {
 func init() {
 	harnesses = append(harnesses, &vs.Harness{
 		Name:     "c19-metrics",
-		Horizon:  time.Hour,
+		Horizon:  72 * time.Hour,
 		MaxSteps: 100000,
 		Body: func(x *vs.X) {
 			mw := &c19mWorld{}
 			x.User = mw
 			mw.ev = vs.Choose("event", nEvents)
 			mw.n = c19Counts[vs.Choose("count", len(c19Counts))]
-			x.Outcome(fmt.Sprintf("%s x %d", evName[mw.ev], mw.n))
+			mw.n2 = []int{0, 1, 9}[vs.Choose("second-period", 3)]
+			x.Outcome(fmt.Sprintf("%s x %d, then x %d in the next period", evName[mw.ev], mw.n, mw.n2))
 			keepMetricsOrder = true
 			w := newWorld()
 			keepMetricsOrder = false
@@ -246,7 +249,7 @@ func init() {
 			if mw.ev == evPollRejected {
 				w.installPatterns("snowflake.torproject.net$", "")
 			}
-			for i := 0; i < mw.n; i++ {
+			doEvent := func(i int) {
 				switch mw.ev {
 				case evIdle:
 					p := w.addProxy(NATUnrestricted, "standalone", 0, 0, ansNever)
@@ -278,8 +281,9 @@ func init() {
 					w.runProxy(p)
 				}
 			}
-			w.ctx.metrics.printMetrics()
-			mw.log = buf.String()
+			for i := 0; i < mw.n; i++ {
+				doEvent(i)
+			}
 			switch mw.ev {
 			case evIdle:
 				mw.promName, mw.prom = "snowflake_rounded_proxy_poll_total{status=idle}", w.promCounter("snowflake_rounded_proxy_poll_total", map[string]string{"status": "idle"})
@@ -294,6 +298,16 @@ func init() {
 			case evPollRejected:
 				mw.promName, mw.prom = "snowflake_rounded_proxy_poll_rejected_relay_url_extension_total", w.promCounter("snowflake_rounded_proxy_poll_rejected_relay_url_extension_total", nil)
 			}
+			// the end of the period: the broker's own ticker prints and zeroes (virtual time)
+			vs.Sleep(metricsResolution + time.Second - vs.Elapsed())
+			mw.log = buf.String()
+			buf.Reset()
+			// a second period with n2 events of the same kind: its figures start from zero
+			for i := 0; i < mw.n2; i++ {
+				doEvent(mw.n + i)
+			}
+			vs.Sleep(2*metricsResolution + time.Second - vs.Elapsed())
+			mw.log2 = buf.String()
 		},
 		Check: func(x *vs.X) {
 			mw := x.User.(*c19mWorld)
@@ -306,49 +320,22 @@ func init() {
 					return
 				}
 			}
-			m := parseMetricsLog(mw.log)
-			want := map[string]int{
-				"snowflake-idle-count": 0, "client-denied-count": 0, "client-restricted-denied-count": 0, "client-unrestricted-denied-count": 0,
-				"client-snowflake-match-count": 0, "snowflake-proxy-poll-with-relay-url-count": 0, "snowflake-proxy-poll-without-relay-url-count": 0, "snowflake-proxy-rejected-for-relay-url-count": 0,
-			}
-			n := mw.n
-			switch mw.ev {
-			case evIdle:
-				want["snowflake-idle-count"], want["snowflake-proxy-poll-with-relay-url-count"] = n, n
-			case evDeniedRestricted:
-				want["client-denied-count"], want["client-restricted-denied-count"] = n, n
-			case evDeniedUnrestricted:
-				want["client-denied-count"], want["client-unrestricted-denied-count"] = n, n
-			case evMatched:
-				want["client-snowflake-match-count"], want["snowflake-proxy-poll-with-relay-url-count"] = n, n
-			case evPollWithExt:
-				want["snowflake-idle-count"], want["snowflake-proxy-poll-with-relay-url-count"] = n, n
-			case evPollWithoutExt:
-				want["snowflake-idle-count"], want["snowflake-proxy-poll-without-relay-url-count"] = n, n
-			case evPollRejected:
-				want["snowflake-proxy-poll-with-relay-url-count"], want["snowflake-proxy-rejected-for-relay-url-count"] = n, n
-			}
-			var keys []string
-			for k := range want {
-				keys = append(keys, k)
-			}
-			sort.Strings(keys)
 			var oc []string
-			for _, k := range keys {
-				got, err := strconv.Atoi(m[k])
-				oc = append(oc, fmt.Sprintf("%s=%s", k, m[k]))
-				if err != nil {
-					x.Fail("metrics-log", "metrics-line-missing:"+k, "metrics log has no parsable line %q (%q)", k, m[k])
+			for period, lg := range []string{mw.log, mw.log2} {
+				n := mw.n
+				if period == 1 {
+					n = mw.n2
+				}
+				if c := strings.Count(lg, "snowflake-stats-end"); c != 1 {
+					x.Fail("metrics-log", "period-not-logged-once", "period %d: the metrics log holds %d period headers, want 1", period+1, c)
 					continue
 				}
-				if uint64(got) != ceil8(uint64(want[k])) {
-					x.Fail("rounded-up-to-8", "metrics-log-count-wrong:"+k, "%d x %s: log says %s=%d, want ceil8(%d)=%d", n, evName[mw.ev], k, got, want[k], ceil8(uint64(want[k])))
-				}
+				oc = append(oc, mw.judgePeriod(x, period+1, n, lg))
 			}
-			if uint64(mw.prom) != ceil8(uint64(n)) {
-				x.Fail("rounded-up-to-8", "prometheus-counter-wrong:"+strings.SplitN(mw.promName, "{", 2)[0], "%d x %s: %s = %v, want %d", n, evName[mw.ev], mw.promName, mw.prom, ceil8(uint64(n)))
+			if uint64(mw.prom) != ceil8(uint64(mw.n)) {
+				x.Fail("rounded-up-to-8", "prometheus-counter-wrong:"+strings.SplitN(mw.promName, "{", 2)[0], "%d x %s: %s = %v, want %d", mw.n, evName[mw.ev], mw.promName, mw.prom, ceil8(uint64(mw.n)))
 			}
-			x.Outcome(strings.Join(oc, " ") + fmt.Sprintf(" prom=%v", mw.prom))
+			x.Outcome(strings.Join(oc, " || ") + fmt.Sprintf(" prom=%v", mw.prom))
 		},
 	})
 
@@ -357,18 +344,25 @@ func init() {
 	ipTypes := []string{"standalone", "webext", "badge", "iptproxy", "foo"}
 	harnesses = append(harnesses, &vs.Harness{
 		Name:     "c19-ips",
-		Horizon:  time.Hour,
+		Horizon:  72 * time.Hour,
 		MaxSteps: 100000,
 		Body: func(x *vs.X) {
 			k := 1 + vs.Choose("len", cfgInt(x, "maxlen", 3))
-			type poll struct{ addr, typ, nat string }
-			var seq []poll
+			var seq []c19Poll
 			for i := 0; i < k; i++ {
-				seq = append(seq, poll{ipAddrs[vs.Choose("addr", len(ipAddrs))], ipTypes[vs.Choose("type", len(ipTypes))], []string{NATUnrestricted, NATRestricted}[vs.Choose("nat", 2)]})
+				seq = append(seq, c19Poll{ipAddrs[vs.Choose("addr", len(ipAddrs))], ipTypes[vs.Choose("type", len(ipTypes))], []string{NATUnrestricted, NATRestricted}[vs.Choose("nat", 2)]})
+			}
+			// the next period: nobody / the first proxy of the first period again / a proxy not seen before
+			var seq2 []c19Poll
+			switch vs.Choose("second-period", 3) {
+			case 1:
+				seq2 = []c19Poll{seq[0]}
+			case 2:
+				seq2 = []c19Poll{{"5.6.7.9", "webext", NATRestricted}, seq[0]}
 			}
 			iw := &c19iWorld{}
 			x.User = iw
-			x.Outcome(fmt.Sprint(seq))
+			x.Outcome(fmt.Sprint(seq, " then ", seq2))
 			keepMetricsOrder = true
 			w := newWorld()
 			keepMetricsOrder = false
@@ -377,24 +371,35 @@ func init() {
 			}
 			var buf bytes.Buffer
 			w.ctx.metrics.logger = log.New(&buf, "", 0)
-			for _, pl := range seq {
-				p := w.addProxy(pl.nat, pl.typ, 0, 0, ansNever)
-				p.remote = pl.addr + ":4000"
-				w.runProxy(p)
-				typ := pl.typ
-				if !messages.KnownProxyTypes[typ] {
-					typ = "unknown"
+			for period, sq := range [][]c19Poll{seq, seq2} {
+				ref := c19Period{perType: map[string]map[string]bool{}, nat: map[string]map[string]bool{}}
+				for _, pl := range sq {
+					p := w.addProxy(pl.nat, pl.typ, 0, 0, ansNever)
+					p.remote = pl.addr + ":4000"
+					w.runProxy(p)
+					typ := pl.typ
+					if !messages.KnownProxyTypes[typ] {
+						typ = "unknown"
+					}
+					if ref.perType[typ] == nil {
+						ref.perType[typ] = map[string]bool{}
+					}
+					if !ref.perType[typ][pl.addr] {
+						// the NAT figures count an address under the NAT type it reported when it was
+						// first seen with a proxy type in this period
+						if ref.nat[pl.nat] == nil {
+							ref.nat[pl.nat] = map[string]bool{}
+						}
+						ref.nat[pl.nat][pl.addr] = true
+					}
+					ref.perType[typ][pl.addr] = true
 				}
-				if iw.perType == nil {
-					iw.perType = map[string]map[string]bool{}
-				}
-				if iw.perType[typ] == nil {
-					iw.perType[typ] = map[string]bool{}
-				}
-				iw.perType[typ][pl.addr] = true
+				// the end of the period: the broker's own ticker prints and zeroes (virtual time)
+				vs.Sleep(time.Duration(period+1)*metricsResolution + time.Second - vs.Elapsed())
+				ref.log = buf.String()
+				buf.Reset()
+				iw.periods = append(iw.periods, ref)
 			}
-			w.ctx.metrics.printMetrics()
-			iw.log = buf.String()
 		},
 		Check: func(x *vs.X) {
 			iw := x.User.(*c19iWorld)
@@ -403,37 +408,104 @@ func init() {
 					x.Fail("no-panic", "panic:"+firstLine(t.Panic), "%s", t.PanicAt)
 					return
 				}
-			}
-			m := parseMetricsLog(iw.log)
-			total := 0
-			for typ := range messages.KnownProxyTypes {
-				want := len(iw.perType[typ])
-				total += want
-				if m["snowflake-ips-"+typ] != strconv.Itoa(want) {
-					x.Fail("unique-addresses", "ips-per-type-wrong", "snowflake-ips-%s = %q, want %d", typ, m["snowflake-ips-"+typ], want)
+				if t.Name == "main" && !t.Done {
+					x.Fail("terminates", "driver-blocked@"+t.Site, "driver blocked at %s", t.Site)
+					return
 				}
 			}
-			total += len(iw.perType["unknown"])
-			if m["snowflake-ips-total"] != strconv.Itoa(total) {
-				x.Fail("unique-addresses", "ips-total-wrong", "snowflake-ips-total = %q, want %d (once per address and proxy type)", m["snowflake-ips-total"], total)
+			var oc []string
+			for pi, ref := range iw.periods {
+				if c := strings.Count(ref.log, "snowflake-stats-end"); c != 1 {
+					x.Fail("metrics-log", "period-not-logged-once", "period %d: the metrics log holds %d period headers, want 1", pi+1, c)
+					continue
+				}
+				m := parseMetricsLog(ref.log)
+				total := 0
+				for typ := range messages.KnownProxyTypes {
+					want := len(ref.perType[typ])
+					total += want
+					if m["snowflake-ips-"+typ] != strconv.Itoa(want) {
+						x.Fail("unique-addresses", "ips-per-type-wrong", "period %d: snowflake-ips-%s = %q, want %d", pi+1, typ, m["snowflake-ips-"+typ], want)
+					}
+				}
+				total += len(ref.perType["unknown"])
+				if m["snowflake-ips-total"] != strconv.Itoa(total) {
+					x.Fail("unique-addresses", "ips-total-wrong", "period %d: snowflake-ips-total = %q, want %d (once per address and proxy type)", pi+1, m["snowflake-ips-total"], total)
+				}
+				// country counts: once per (address, type)
+				sum := 0
+				for _, kv := range regexp.MustCompile(`[A-Za-z?]{2}=(\d+)`).FindAllStringSubmatch(m["snowflake-ips"], -1) {
+					n, _ := strconv.Atoi(kv[1])
+					sum += n
+				}
+				if sum != total {
+					x.Fail("unique-addresses", "country-counts-wrong", "period %d: country counts %q sum to %d, want %d", pi+1, m["snowflake-ips"], sum, total)
+				}
+				for nat, line := range map[string]string{NATRestricted: "snowflake-ips-nat-restricted", NATUnrestricted: "snowflake-ips-nat-unrestricted", NATUnknown: "snowflake-ips-nat-unknown"} {
+					if m[line] != strconv.Itoa(len(ref.nat[nat])) {
+						x.Fail("unique-addresses", "ips-per-nat-wrong", "period %d: %s = %q, want %d", pi+1, line, m[line], len(ref.nat[nat]))
+					}
+				}
+				oc = append(oc, fmt.Sprintf("total=%s ips=%s nat=%s/%s/%s", m["snowflake-ips-total"], m["snowflake-ips"], m["snowflake-ips-nat-restricted"], m["snowflake-ips-nat-unrestricted"], m["snowflake-ips-nat-unknown"]))
 			}
-			// country counts: once per (address, type)
-			sum := 0
-			for _, kv := range regexp.MustCompile(`[A-Za-z?]{2}=(\d+)`).FindAllStringSubmatch(m["snowflake-ips"], -1) {
-				n, _ := strconv.Atoi(kv[1])
-				sum += n
-			}
-			if sum != total {
-				x.Fail("unique-addresses", "country-counts-wrong", "country counts %q sum to %d, want %d", m["snowflake-ips"], sum, total)
-			}
-			x.Outcome(fmt.Sprintf("total=%s ips=%s", m["snowflake-ips-total"], m["snowflake-ips"]))
+			x.Outcome(strings.Join(oc, " || "))
 		},
 	})
 }
 
-type c19iWorld struct {
+type c19Poll struct{ addr, typ, nat string }
+
+type c19Period struct {
 	perType map[string]map[string]bool
+	nat     map[string]map[string]bool
 	log     string
+}
+
+// judgePeriod compares one period's metrics log with the true event counts of that period.
+func (mw *c19mWorld) judgePeriod(x *vs.X, period, n int, lg string) string {
+	m := parseMetricsLog(lg)
+	want := map[string]int{
+		"snowflake-idle-count": 0, "client-denied-count": 0, "client-restricted-denied-count": 0, "client-unrestricted-denied-count": 0,
+		"client-snowflake-match-count": 0, "snowflake-proxy-poll-with-relay-url-count": 0, "snowflake-proxy-poll-without-relay-url-count": 0, "snowflake-proxy-rejected-for-relay-url-count": 0,
+	}
+	switch mw.ev {
+	case evIdle:
+		want["snowflake-idle-count"], want["snowflake-proxy-poll-with-relay-url-count"] = n, n
+	case evDeniedRestricted:
+		want["client-denied-count"], want["client-restricted-denied-count"] = n, n
+	case evDeniedUnrestricted:
+		want["client-denied-count"], want["client-unrestricted-denied-count"] = n, n
+	case evMatched:
+		want["client-snowflake-match-count"], want["snowflake-proxy-poll-with-relay-url-count"] = n, n
+	case evPollWithExt:
+		want["snowflake-idle-count"], want["snowflake-proxy-poll-with-relay-url-count"] = n, n
+	case evPollWithoutExt:
+		want["snowflake-idle-count"], want["snowflake-proxy-poll-without-relay-url-count"] = n, n
+	case evPollRejected:
+		want["snowflake-proxy-poll-with-relay-url-count"], want["snowflake-proxy-rejected-for-relay-url-count"] = n, n
+	}
+	var keys []string
+	for k := range want {
+		keys = append(keys, k)
+	}
+	sort.Strings(keys)
+	var oc []string
+	for _, k := range keys {
+		got, err := strconv.Atoi(m[k])
+		oc = append(oc, fmt.Sprintf("%s=%s", k, m[k]))
+		if err != nil {
+			x.Fail("metrics-log", "metrics-line-missing:"+k, "period %d: metrics log has no parsable line %q (%q)", period, k, m[k])
+			continue
+		}
+		if uint64(got) != ceil8(uint64(want[k])) {
+			x.Fail("rounded-up-to-8", "metrics-log-count-wrong:"+k, "period %d, %d x %s: log says %s=%d, want ceil8(%d)=%d", period, n, evName[mw.ev], k, got, want[k], ceil8(uint64(want[k])))
+		}
+	}
+	return strings.Join(oc, " ")
+}
+
+type c19iWorld struct {
+	periods []c19Period
 }
 
 // c20-ticker: the daily metrics ticker fires while requests are in flight (race mode only matters).
